@@ -26,12 +26,14 @@ package galaxy
 // ---- selection (C12): without a networks annotation and without an ENI network configured, the
 // default networks in their configured order; the first entry always on the interface kubelet named
 //@ pure noNetworksAnnotation(pod *v1.Pod) bool = pod.Annotations == nil || pod.Annotations["k8s.v1.cni.cncf.io/networks"] == ""
+//@ pure podWantsENI(pod *v1.Pod) bool = exists c int {pod.Spec.Containers[c]} :: 0 <= c && c < len(pod.Spec.Containers) && "tke.cloud.tencent.com/eni-ip" in pod.Spec.Containers[c].Resources.Requests
 //@ func [C12,C18] (*Galaxy).resolveNetworks
 //@   requires req != nil && req.CmdArgs != nil && pod != nil
 //@   requires [C18] g.ServerRunOptions != nil
 //@   ensures [C12:resolved-networks-are-objects] result1 == nil ==> forall i int {result0[i]} :: 0 <= i && i < len(result0) ==> result0[i] != nil && result0[i].Args != nil
 //@   ensures [C12:first-network-on-kubelet-interface] result1 == nil && len(result0) > 0 ==> result0[0].IfName == req.CmdArgs.IfName
-//@   ensures [C12:default-networks-in-configured-order] result1 == nil && old(noNetworksAnnotation(pod)) && g.ENIIPNetwork == "" ==> len(result0) == len(g.DefaultNetworks) && forall i int {result0[i]} :: 0 <= i && i < len(result0) ==> result0[i].NetworkType == g.DefaultNetworks[i] && (g.DefaultNetworks[i] in g.netConf ==> result0[i].Conf == g.netConf[g.DefaultNetworks[i]])
+//@   ensures [C12:eni-network-for-pods-requesting-an-eni-ip] result1 == nil && old(noNetworksAnnotation(pod)) && old(podWantsENI(pod)) && g.ENIIPNetwork != "" ==> len(result0) == 1 && result0[0].NetworkType == g.ENIIPNetwork && (g.ENIIPNetwork in g.netConf ==> result0[0].Conf == g.netConf[g.ENIIPNetwork])
+//@   ensures [C12:default-networks-in-configured-order] result1 == nil && old(noNetworksAnnotation(pod)) && !(old(podWantsENI(pod)) && g.ENIIPNetwork != "") ==> len(result0) == len(g.DefaultNetworks) && forall i int {result0[i]} :: 0 <= i && i < len(result0) ==> result0[i].NetworkType == g.DefaultNetworks[i] && (g.DefaultNetworks[i] in g.netConf ==> result0[i].Conf == g.netConf[g.DefaultNetworks[i]])
 //@   modifies fresh cniutil.NetworkInfo.*, fresh elemsof(*cniutil.NetworkInfo), mapsof(map[string]string), fresh mapsof(map[string]interface{}), fresh mapsof(map[string]json.RawMessage), fresh elemsof(interface{}), fresh elemsof(byte), fresh elemsof(string), fresh k8s.NetworkSelectionElement.*, elemsof(*k8s.NetworkSelectionElement)
 //@   loop 0,1 invariant forall j int {networkInfos[j]} :: 0 <= j && j < len(networkInfos) ==> networkInfos[j] != nil && networkInfos[j].Args != nil && fresh(networkInfos[j].Args)
 //@   loop 0,1 invariant len(networkInfos) > 0 ==> networkInfos[0].IfName == req.CmdArgs.IfName
